@@ -11,6 +11,7 @@ import (
 	"sort"
 	"strings"
 	"testing"
+	"unicode/utf8"
 
 	"pgregory.net/rapid"
 	"verif/lib"
@@ -59,6 +60,9 @@ func c01Gen(t *rapid.T) interface{} {
 			hi = q + 1
 		}
 		c.Corpus.Synth = append(c.Corpus.Synth, genSynthDoc(t, i, lo, hi))
+	}
+	if (ns > 0 || !c.Corpus.Full) && lib.IntN(t, 0, 2, "readd") == 0 {
+		c.Corpus.ReAdd = true
 	}
 	nc := 1 + lib.Weighted(t, []int{50, 30, 15, 5}, "ncopies")
 	for i := 0; i < nc; i++ {
@@ -184,6 +188,9 @@ func c01Build(c *c01Case, cl *Classifier) (input []byte, planted []c01Planted, w
 	if sepAt(0).Words > 40 {
 		cls["long-prefix"] = true
 	}
+	if c.Corpus.ReAdd {
+		cls["corpus-entry-replaced-before"] = true
+	}
 	if c.Corpus.Full {
 		cls["full-corpus"] = true
 	} else {
@@ -207,14 +214,33 @@ func c01Check(ci interface{}) lib.Outcome {
 		return lib.Outcome{Skip: "no-eligible-document"}
 	}
 	got := ids(cl, input)
-	// premise: the input really is OOV* copy OOV* copy ... at token level
-	if len(got) != len(want) {
-		return lib.Outcome{Skip: "premise_failed", Classes: classes}
-	}
-	for i := range got {
-		if got[i].ID != want[i] {
-			return lib.Outcome{Skip: "premise_failed", Classes: classes}
+	// premise: the input really is OOV* copy OOV* copy ... at token level. When every copy stands on lines of its own
+	// the only legitimate way for this to fail is a document whose text ends in a hyphen (it joins the next word);
+	// otherwise a copy that tokenises differently in context than on its own is a violation, not a failed premise.
+	ownLines := true
+	for i, cp := range c.Copies {
+		if cp.InlineBefore || cp.InlineAfter {
+			ownLines = false
 		}
+		if t := bytes.TrimRight(planted[i].file.Content, " \t\r\n"); len(t) > 0 {
+			if r, _ := utf8.DecodeLastRune(t); isDashRune(r) {
+				ownLines = false
+			}
+		}
+	}
+	mismatch := len(got) != len(want)
+	for i := 0; !mismatch && i < len(got); i++ {
+		mismatch = got[i].ID != want[i]
+	}
+	if mismatch {
+		if ownLines {
+			var names []string
+			for _, p := range planted {
+				names = append(names, p.file.key())
+			}
+			return lib.Outcome{Violation: fmt.Sprintf("threshold %v: copies of %v, each on lines of its own between blocks of unrelated words, tokenise to %d words in context but to %d words (blocks + documents) on their own", c.Thr, names, len(got), len(want)), Classes: classes}
+		}
+		return lib.Outcome{Skip: "premise_failed", Classes: classes}
 	}
 	res := cl.Match(input)
 	for k, p := range planted {
